@@ -187,6 +187,9 @@ def main():
     ndiff = 0
     for (case, klass), om, oi in zip(cases, out_m, out_i):
         d = gen.compare(case, om, oi)
+        if d is None and hasattr(gen, "oracle"):
+            # expectation that follows from the theorems alone (independent of the model run)
+            d = gen.oracle(case, klass, om, oi)
         oc = gen.outcome(case, om, oi) if hasattr(gen, "outcome") else om.split(" ")[0]
         outcome_hist[oc] = outcome_hist.get(oc, 0) + 1
         if gen.nontrivial(case, om, oi):
@@ -205,7 +208,7 @@ def main():
             known_hit.setdefault(matched["id"], []).append(case)
             continue
         ndiff += 1
-        if len(violations) < 5:
+        if len(violations) < 3:
             violations.append(("disagreement", d, {"cases": [case], "model": om, "impl": oi, "class": klass, "key": key}))
 
     # a broken proof obligation without a disagreement is still reported
